@@ -2194,6 +2194,9 @@ class Lowerer:
             self.need_record(bt)
             if name in ('begin', 'end'):
                 return '(%s)->_%s' % (obj, name)
+        if key.startswith('std::pair<') and name == 'operator=' and len(args) == 1:
+            self.need_record(bt)
+            return '(*(%s) = %s)' % (obj, self.expr(args[0]))
         if key.startswith('std::array<'):
             self.need_record(bt)
             if name == 'operator[]':
